@@ -58,8 +58,9 @@ def entropy_regularized_policy_iteration(
     assert rf.shape[2] in (1, tf.shape[2])
     assert pi0.shape[0] in (1, tf.shape[0])
     assert pi0.shape[1] == tf.shape[1]
-    if isinstance(entropy_weight, (float, int)):
-        entropy_weight = torch.tensor([entropy_weight])
+    if not isinstance(entropy_weight, torch.Tensor) or entropy_weight.dim() == 0:
+        # a scalar weight: Python / numpy number or 0-dimensional tensor
+        entropy_weight = torch.tensor([float(entropy_weight)])
     assert entropy_weight.shape[0] in (1, tf.shape[0])
 
     eye = torch.eye(tf.shape[0])
